@@ -14,6 +14,7 @@ verus! {
 //@include ../frag/headers.tpl
 //@include ../frag/walk.tpl
 //@include ../frag/feepct.tpl
+//@include ../frag/hstore.tpl
 
 proof fn vp_canary_axioms()
     ensures false,
